@@ -10,6 +10,7 @@ CONSTANTS
   Permissive = FALSE
   Bug = {}
   GenMode = "single"
+  FollowCmds = {"R", "W", "A", "I", "X", "U"}
   MaxChanges = 0
 INVARIANT EmitTrace
 CHECK_DEADLOCK FALSE
